@@ -298,6 +298,9 @@ func (h *harness) exercise(row authMsg, pl payload, vs []variant) {
 			posEffect = len(h.base.diff(h.digest(ctx))) > 0
 		}
 		rep.Count("positive:" + errClass(err))
+		if !posOK {
+			rep.Count("positive-not-accepted:" + row.URL + ":" + pl.Variant + ":" + errClass(err))
+		}
 		if !posOK && pl.NoPositive == "" {
 			rep.Fail(lib.Failure{Kind: "harness", What: fmt.Sprintf("positive control failed: %s (%s) with the governance authority: %v", row.URL, pl.Variant, err),
 				Sig: "C16:harness:positive:" + row.URL, Replay: map[string]string{"msg": fmt.Sprintf("%v", m)}})
